@@ -449,14 +449,22 @@ impl GarnishNumber for SimpleNumber {
 
     fn bitwise_shift_left(self, rhs: Self) -> Option<Self> {
         Some(match (self, rhs) {
-            (Integer(v1), Integer(v2)) => Integer(v1 << v2),
+            // a shift count outside 0..=31 has no result (and would panic in debug builds)
+            (Integer(v1), Integer(v2)) => match u32::try_from(v2).ok().and_then(|count| v1.checked_shl(count)) {
+                Some(v) => Integer(v),
+                None => return None,
+            },
             _ => return None,
         })
     }
 
     fn bitwise_shift_right(self, rhs: Self) -> Option<Self> {
         Some(match (self, rhs) {
-            (Integer(v1), Integer(v2)) => Integer(v1 >> v2),
+            // a shift count outside 0..=31 has no result (and would panic in debug builds)
+            (Integer(v1), Integer(v2)) => match u32::try_from(v2).ok().and_then(|count| v1.checked_shr(count)) {
+                Some(v) => Integer(v),
+                None => return None,
+            },
             _ => return None,
         })
     }
